@@ -115,6 +115,18 @@ func (x *Dev) Read(p []byte) (int, error) {
 		}
 		ek = s.E
 	}
+	if ek == "panic-str" || ek == "panic-err" {
+		// a dying device: Read itself panics (after possibly delivering nothing in this call)
+		x.Log = append(x.Log, core.ReadRec{Asked: len(p), Gave: 0, Err: ek})
+		if x.FirstErr < 0 {
+			x.FirstErr = len(x.Log) - 1
+			x.DAtErr = x.Pos
+		}
+		if ek == "panic-str" {
+			panic("simulated device died")
+		}
+		panic(ErrSim)
+	}
 	for i := 0; i < k; i++ {
 		p[i] = x.byteAt(x.Pos + i)
 	}
